@@ -13,6 +13,9 @@ Decided clauses (narrow): the channels are different code that must funnel into 
   C05.d  every JSON number is a number for the yaml loader (regular-language inclusion)
   C05.e  a text accepted under a normalisation (x.lower() in {...}) is interpreted under
          the same normalisation
+  C05.f  list-valued options are decided as argparse does (integer clause folded over
+         {0,1,2,3}); steps of the leaf arm after the load are not conditioned on the
+         value having arrived as text
 Not decided: equality of results across channels for all values; loader equivalence
 across parser modes.
 """
@@ -24,7 +27,7 @@ from typing import Dict, List, Set, Tuple
 
 from .report import Ctx
 from .srcmodel import AnalysisError, call_leaf, call_name, calls_in, const_str, contains, dotted, func_params, src, walk_local
-from .util import core_stmts, root_name
+from .util import core_stmts, guard_chain, root_name
 
 CHECKERS = {"_check_value_key", "_check_type", "_check_type_", "_load_config", "check_type"}
 FIND = {"_find_action", "_find_action_and_subcommand", "_find_parent_action", "_find_parent_action_and_subcommand", "_is_branch_key"}
@@ -278,6 +281,54 @@ def run(ctx: Ctx) -> int:
                             fn=fn,
                         )
     ctx.floor("C05.e-normalised-membership", n_norm, 1)
+
+    # ---------------- C05.f: which options are list-valued is the same for every channel --------------------
+    # argparse collects a list for nargs '*', '+' and every integer N >= 1 (N = 1 included); the environment and
+    # object channels ask _is_action_value_list.  The integer clause is folded over the small domain {0,1,2,3}.
+    ial = ctx.func("_actions:_is_action_value_list")
+    cmps = [n_ for n_ in ast.walk(ial) if isinstance(n_, ast.Compare) and len(n_.ops) == 1 and isinstance(n_.left, ast.Attribute) and n_.left.attr == "nargs" and isinstance(n_.comparators[0], ast.Constant) and isinstance(n_.comparators[0].value, int) and not isinstance(n_.comparators[0].value, bool)]
+    sets = [n_ for n_ in ast.walk(ial) if isinstance(n_, ast.Compare) and len(n_.ops) == 1 and isinstance(n_.ops[0], ast.In) and isinstance(n_.left, ast.Attribute) and n_.left.attr == "nargs" and isinstance(n_.comparators[0], (ast.Set, ast.Tuple, ast.List))]
+    ctx.need(len(cmps) == 1 and len(sets) == 1, "_is_action_value_list: one integer comparison and one set test on action.nargs")
+    opmap = {ast.NotEq: lambda a, b: a != b, ast.Gt: lambda a, b: a > b, ast.GtE: lambda a, b: a >= b, ast.Lt: lambda a, b: a < b, ast.LtE: lambda a, b: a <= b, ast.Eq: lambda a, b: a == b}
+    opf = opmap.get(type(cmps[0].ops[0]))
+    ctx.need(opf, "_is_action_value_list: comparison operator")
+    kconst = cmps[0].comparators[0].value
+    table = {n_: opf(n_, kconst) for n_ in (0, 1, 2, 3)}
+    symbols = {const_str(e) for e in sets[0].comparators[0].elts}
+    ok = table == {0: False, 1: True, 2: True, 3: True} and {"*", "+"} <= symbols and not ({"?", None} & symbols)
+    ctx.oblige(
+        "C05.f",
+        ok,
+        cmps[0],
+        "list-valued options are exactly nargs in {'*', '+'} or an integer >= 1, as argparse collects them" if ok else f"_is_action_value_list says {table} for integer nargs and {sorted(s for s in symbols if s)} for symbols: the environment / object channels treat an option as scalar that argparse collects as a list (or the reverse), e.g. nargs=1",
+        fn=ial,
+    )
+    # leaf arm: after the text was loaded, what follows is the same for text and non-text values
+    ad5 = ctx.func("_typehints:adapt_typehints")
+    loads = [c for c in calls_in(ad5) if call_leaf(c) == "json_or_yaml_load" and any("leaf_types" in ast.unparse(t) and pol for t, pol in guard_chain(c, stop=ad5))]
+    ctx.need(len(loads) == 1, "adapt_typehints leaf arm: json_or_yaml_load")
+    str_test = next((t for t, pol in guard_chain(loads[0], stop=ad5) if pol and "isinstance(val, str)" in ast.unparse(t)), None)
+    ctx.need(str_test is not None, "leaf arm: load guarded by isinstance(val, str)")
+    arm_test = next(t for t, pol in guard_chain(loads[0], stop=ad5) if pol and "leaf_types" in ast.unparse(t))
+    n_leaf = 0
+    for s in walk_local(ad5):
+        if not isinstance(s, (ast.Assign, ast.Expr, ast.Raise)):
+            continue
+        gch = guard_chain(s, stop=ad5)
+        if not any(t is arm_test and pol for t, pol in gch):
+            continue
+        if any(contains(s, ld) for ld in loads):
+            continue
+        n_leaf += 1
+        under_str = any(t is str_test for t, _ in gch)
+        ctx.oblige(
+            "C05.f",
+            not under_str,
+            s,
+            "leaf-arm step applies to text and non-text values alike" if not under_str else f"`{src(s, 50)}` only runs for values that arrived as text: the same setting is coerced / checked differently when it arrives already loaded (config file, object) than when it arrives as a string (argv, environment)",
+            fn=ad5,
+        )
+    ctx.floor("C05.f-leaf-steps", n_leaf, 2)
 
     return ctx.finish(
         explanation=(
